@@ -111,7 +111,11 @@ def explore(chk, alpha, lite, depth_quick=4, depth_thorough=5, tag=""):
                 out[i::64] = r_
             return out
         for d in range(1, depth + 1):
-            seqs = list(itertools.product(alpha, repeat=d))
+            # (depth 5 - thorough tier only - runs over the 15 core letters: 18^5 histories do not fit in memory; the three
+            # later additions are covered exhaustively to depth 4 and by the random depth-30 histories)
+            a_d = alpha if d < 5 else [x for x in alpha if x not in (("open_tx_pipe", S3), ("set_auto_ack", (False, 0)),
+                                                                      ("set_auto_ack", (True, 0)))]
+            seqs = list(itertools.product(a_d, repeat=d))
             tr = execute(seqs)
             chk.phase("%sexec %d" % (tag, d))
             if d == depth or d < 3:
